@@ -1,10 +1,35 @@
 pub fn bzr_url_to_git_url(
     location: &str,
-) -> Result<(String, Option<String>, Option<String>), dromedary::urlutils::Error> {
+) -> Result<(String, Option<String>, Option<Vec<u8>>), dromedary::urlutils::Error> {
     let (target_url, target_params) = dromedary::urlutils::split_segment_parameters(location)?;
-    let branch = target_params.get("branch").map(|s| s.to_string());
-    let ref_ = target_params.get("revno").map(|s| s.to_string());
+    // git_url_to_bzr_url percent-encodes both values; undo that here.
+    let branch = match target_params.get("branch") {
+        Some(s) => Some(dromedary::urlutils::unescape(s)?),
+        None => None,
+    };
+    let ref_ = target_params.get("ref").map(|s| percent_decode(s));
     Ok((target_url.to_string(), branch, ref_))
+}
+
+/// Decode %XX escapes to raw bytes (git ref names need not be UTF-8).
+fn percent_decode(s: &str) -> Vec<u8> {
+    let bytes = s.as_bytes();
+    let mut out = Vec::with_capacity(bytes.len());
+    let mut i = 0;
+    while i < bytes.len() {
+        if bytes[i] == b'%' && i + 2 < bytes.len() {
+            let hi = (bytes[i + 1] as char).to_digit(16);
+            let lo = (bytes[i + 2] as char).to_digit(16);
+            if let (Some(hi), Some(lo)) = (hi, lo) {
+                out.push((hi * 16 + lo) as u8);
+                i += 3;
+                continue;
+            }
+        }
+        out.push(bytes[i]);
+        i += 1;
+    }
+    out
 }
 
 pub fn get_cache_dir() -> std::io::Result<std::path::PathBuf> {
